@@ -1,9 +1,310 @@
-//! stub
-use super::Ctx;
-use crate::engine::evidence::{Case, Report, Verdict};
-pub fn run(_ctx: &Ctx, _rep: &mut Report) {
-    crate::engine::monitor::machinery_fail("not implemented");
+//! C06 - hand rank name and class describe exactly the poker class of the value.
+//!
+//! Spaces: all 65,536 values (conversion, the two determine_* functions, is_invalid, the self-consistency test,
+//! default); all 310 class variants (each non-Invalid one labels a non-empty contiguous value range); all five-card
+//! hands in two orders through hand_rank() / hand_rank_validated() (thorough: also all six- and seven-card hands).
+//! Oracle: the v-th class of the rule-derived order; its category / class *text* is generated from the class key
+//! with the crate's published vocabulary, and for hands it is generated from the cards, not from the value.
+use super::hands::AnyHand;
+use super::{confirm, oracle, sample_json, Ctx};
+use crate::engine::enumerate::{combos_prefix, par_parts};
+use crate::engine::evidence::{Acc, Case, Report, Verdict};
+use crate::engine::monitor::{self, guard};
+use crate::oracle::cards::{deck, show_words, Card};
+use crate::oracle::poker::{cat_text, class_text};
+use ckc_rs::cards::five::Five;
+use ckc_rs::cards::seven::Seven;
+use ckc_rs::cards::six::Six;
+use ckc_rs::cards::HandRanker;
+use ckc_rs::hand_rank::{HandRank, HandRankClass, HandRankName};
+use std::collections::HashMap;
+use std::sync::OnceLock;
+use std::time::Instant;
+use strum::IntoEnumIterator;
+
+/// expected (name, class) variants per value, looked up from the generated text through the crate's own variants
+struct Expect {
+    name: Vec<Option<HandRankName>>,
+    class: Vec<Option<HandRankClass>>,
+    name_text: Vec<String>,
+    class_text: Vec<String>,
 }
-pub fn judge(_case: &Case) -> Verdict {
-    Verdict::NotJudged("not implemented".into())
+static EXPECT: OnceLock<Expect> = OnceLock::new();
+fn expect() -> &'static Expect {
+    EXPECT.get_or_init(|| {
+        let o = oracle();
+        let names: HashMap<String, HandRankName> = HandRankName::iter().map(|n| (format!("{:?}", n), n)).collect();
+        let classes: HashMap<String, HandRankClass> = HandRankClass::iter().map(|c| (format!("{:?}", c), c)).collect();
+        let mut e = Expect { name: vec![], class: vec![], name_text: vec![], class_text: vec![] };
+        for v in 0..=65535u32 {
+            let (nt, ct) = match o.key_of_ord(v as u16) {
+                Some(k) => (cat_text(k).to_string(), class_text(k)),
+                None => ("Invalid".to_string(), "Invalid".to_string()),
+            };
+            e.name.push(names.get(&nt).copied());
+            e.class.push(classes.get(&ct).copied());
+            e.name_text.push(nt);
+            e.class_text.push(ct);
+        }
+        e
+    })
+}
+
+fn rank_of(entry: &str, w: &[u32]) -> Option<HandRank> {
+    macro_rules! go {
+        ($h:expr) => {
+            match entry {
+                "hand_rank" => Some($h.hand_rank()),
+                "hand_rank_validated" => Some($h.hand_rank_validated()),
+                _ => None,
+            }
+        };
+    }
+    match w.len() {
+        5 => go!(Five::from([w[0], w[1], w[2], w[3], w[4]])),
+        6 => go!(Six::from([w[0], w[1], w[2], w[3], w[4], w[5]])),
+        7 => go!(Seven::from([w[0], w[1], w[2], w[3], w[4], w[5], w[6]])),
+        _ => None,
+    }
+}
+
+fn describe(h: &HandRank) -> String {
+    format!("value {} name {:?} class {:?}", h.value, h.name, h.class)
+}
+
+/// Case kinds: "value" [v]; "class-range" [variant index in HandRankClass::iter() order];
+/// "<five|six|seven>.<hand_rank|hand_rank_validated>" [card words].
+pub fn judge(case: &Case) -> Verdict {
+    let e = expect();
+    if case.kind == "value" {
+        let v = match case.words.first() {
+            Some(v) if *v <= 65535 => *v as u16,
+            _ => return Verdict::NotJudged("value out of u16".into()),
+        };
+        let valid = (1..=7462).contains(&v);
+        let exp = format!("value {} name {} class {} is_invalid {} consistent true", v, e.name_text[v as usize], e.class_text[v as usize], !valid);
+        return match guard(|| {
+            let h = HandRank::from(v);
+            let n = HandRank::determine_name(&v);
+            let c = HandRank::determine_class(&v);
+            let dflt = HandRank::default();
+            (h, n, c, h.is_invalid(), h.is_a_valid_hand_rank(), dflt)
+        }) {
+            Err(p) => Verdict::Violated { class: "panic:value".into(), expected: exp, observed: format!("panic: {}", p) },
+            Ok((h, n, c, inv, cons, dflt)) => {
+                let mut problems = Vec::new();
+                if h.value != v {
+                    problems.push("value-not-carried");
+                }
+                if format!("{:?}", h.name) != e.name_text[v as usize] || n != h.name {
+                    problems.push("wrong-category");
+                }
+                if format!("{:?}", h.class) != e.class_text[v as usize] || c != h.class {
+                    problems.push("wrong-class");
+                }
+                if inv == valid {
+                    problems.push("is_invalid-wrong");
+                }
+                if !cons {
+                    problems.push("fails-own-consistency-test");
+                }
+                if v == 0 && (dflt != h || !dflt.is_invalid()) {
+                    problems.push("default-not-invalid-zero");
+                }
+                if problems.is_empty() {
+                    Verdict::Holds
+                } else {
+                    Verdict::Violated { class: format!("value:{}", problems.join("+")), expected: exp, observed: format!("{} determine_name {:?} determine_class {:?} is_invalid {} consistent {}", describe(&h), n, c, inv, cons) }
+                }
+            }
+        };
+    }
+    if case.kind == "class-range" {
+        let idx = case.words.first().copied().unwrap_or(u64::MAX) as usize;
+        let variants: Vec<HandRankClass> = HandRankClass::iter().collect();
+        if idx >= variants.len() {
+            return Verdict::NotJudged("no such variant".into());
+        }
+        let var = variants[idx];
+        let vals: Vec<u32> = (0..=65535u32).filter(|v| HandRank::determine_class(&(*v as u16)) == var).collect();
+        if var == HandRankClass::Invalid {
+            let ok = vals.len() == 65536 - 7462 && vals[0] == 0 && vals[1] == 7463;
+            return if ok { Verdict::Holds } else { Verdict::Violated { class: "class-range:Invalid".into(), expected: "Invalid labels exactly 0 and 7463..=65535".into(), observed: format!("{} values, first {:?}", vals.len(), &vals[..vals.len().min(3)]) } };
+        }
+        let contiguous = !vals.is_empty() && (vals[vals.len() - 1] - vals[0]) as usize == vals.len() - 1;
+        let in_range = vals.iter().all(|v| (1..=7462).contains(v));
+        return if contiguous && in_range {
+            Verdict::Holds
+        } else {
+            Verdict::Violated {
+                class: format!("class-range:{}", if vals.is_empty() { "unused-variant" } else if !in_range { "labels-invalid-value" } else { "not-contiguous" }),
+                expected: format!("{:?} labels a non-empty contiguous range inside 1..=7462", var),
+                observed: format!("{} values, min {:?} max {:?}", vals.len(), vals.first(), vals.last()),
+            }
+        };
+    }
+    let (size, entry) = match case.kind.split_once('.') {
+        Some(x) => x,
+        None => return Verdict::NotJudged("bad kind".into()),
+    };
+    let w = case.w32s();
+    if AnyHand::size_of_name(size) != Some(w.len()) {
+        return Verdict::NotJudged("size mismatch".into());
+    }
+    let cards = match super::c01::distinct_cards(&w) {
+        Some(c) => c,
+        None => return Verdict::NotJudged("not distinct real cards".into()),
+    };
+    let key = crate::oracle::poker::best_key(&cards);
+    let ord = oracle().ord_of(key);
+    let exp = format!("value {} name {} class {} (from the cards {})", ord, cat_text(key), class_text(key), show_words(&w));
+    match guard(|| rank_of(entry, &w)) {
+        Err(p) => Verdict::Violated { class: format!("panic:{}", case.kind), expected: exp, observed: format!("panic: {}", p) },
+        Ok(None) => Verdict::NotJudged("unknown entry".into()),
+        Ok(Some(h)) => {
+            let mut problems = Vec::new();
+            if h.value != ord {
+                problems.push("wrong-value");
+            }
+            if format!("{:?}", h.name) != cat_text(key) {
+                problems.push("category-does-not-describe-cards");
+            }
+            if format!("{:?}", h.class) != class_text(key) {
+                problems.push("class-does-not-describe-cards");
+            }
+            if problems.is_empty() {
+                Verdict::Holds
+            } else {
+                Verdict::Violated { class: format!("{}:{}", case.kind, problems.join("+")), expected: exp, observed: describe(&h) }
+            }
+        }
+    }
+}
+
+fn hands_space(ctx: &Ctx, rep: &mut Report, n: usize, orders: &[Vec<usize>]) {
+    let o = oracle();
+    let e = expect();
+    let d = deck();
+    let size = AnyHand::size_name(n);
+    let mut parts = Vec::new();
+    for a in 0..52usize {
+        for b in a + 1..52 {
+            if b + (n - 2) < 52 {
+                parts.push((a, b));
+            }
+        }
+    }
+    let kind = monitor::kind_id(&format!("{}.hand_rank", size));
+    let t0 = Instant::now();
+    let accs = par_parts(parts.len(), |pi| {
+        let (a, b) = parts[pi];
+        let mut acc = Acc::new(310);
+        let mut cs = vec![Card(0); n];
+        let mut w = vec![0u32; n];
+        let mut arr = vec![0u32; n];
+        combos_prefix(52, n, &[a, b], &mut |idx| {
+            for i in 0..n {
+                cs[i] = d[idx[i]];
+                w[i] = cs[i].word();
+            }
+            let key = crate::oracle::poker::best_key(&cs);
+            let ord = o.ord_of(key);
+            let (en, ec) = (e.name[ord as usize], e.class[ord as usize]);
+            for ordr in orders {
+                for i in 0..n {
+                    arr[ordr[i]] = w[i];
+                }
+                let w64: Vec<u64> = arr.iter().map(|x| *x as u64).collect();
+                monitor::beat(kind, &w64);
+                acc.cases += 1;
+                acc.calls += 2;
+                let ok = match guard(|| (rank_of("hand_rank", &arr), rank_of("hand_rank_validated", &arr))) {
+                    Ok((Some(h1), Some(h2))) => h1.value == ord && Some(h1.name) == en && Some(h1.class) == ec && h1 == h2,
+                    _ => false,
+                };
+                if !ok {
+                    let mut found = false;
+                    for entry in ["hand_rank", "hand_rank_validated"] {
+                        if let Some(v) = confirm(judge, Case::w32(&format!("{}.{}", size, entry), &arr)) {
+                            found = true;
+                            acc.violate(v);
+                        }
+                    }
+                    if !found {
+                        monitor::machinery_fail(&format!("C06 fast path mismatch on {:?} not reproduced", arr));
+                    }
+                }
+            }
+            if acc.samples.is_empty() && (pi as u64 + ctx.seed) % 211 == 0 {
+                acc.samples.push(sample_json(&format!("{}.hand_rank", size), &show_words(&w), &format!("{:?} ; expected from the cards: {} {} {}", rank_of("hand_rank", &w), ord, cat_text(key), class_text(key))));
+            }
+        });
+        acc
+    });
+    let mut acc = Acc::merged(accs);
+    acc.nontrivial = acc.cases;
+    rep.add_space(&format!("{}H x {} orders: hand_rank / hand_rank_validated", n, orders.len()), &acc, t0, "value, category and class text generated from the cards");
+}
+
+pub fn run(ctx: &Ctx, rep: &mut Report) {
+    let e = expect();
+    // (1) all 65,536 values
+    {
+        let t0 = Instant::now();
+        let kind = monitor::kind_id("value");
+        let accs = par_parts(64, |p| {
+            let mut acc = Acc::new(1);
+            for v in (p as u32 * 1024)..((p as u32 + 1) * 1024) {
+                monitor::beat(kind, &[v as u64]);
+                acc.cases += 1;
+                acc.calls += 6;
+                if (1..=7462).contains(&v) {
+                    acc.nontrivial += 1;
+                }
+                if let Some(viol) = confirm(judge, Case::new("value", &[v as u64])) {
+                    acc.violate(viol);
+                }
+            }
+            acc
+        });
+        let acc = Acc::merged(accs);
+        rep.add_space("all 65,536 values", &acc, t0, "HandRank::from, determine_name, determine_class, is_invalid, is_a_valid_hand_rank, default");
+        let missing_names = (1..=7462).filter(|v| e.name[*v].is_none()).count();
+        let missing_classes: Vec<&String> = (1..=7462).filter(|v| e.class[*v].is_none()).map(|v| &e.class_text[v]).collect();
+        rep.hist_add("generated_class_texts_without_a_crate_variant", missing_classes.len() as u64);
+        rep.hist_add("generated_category_texts_without_a_crate_variant", missing_names as u64);
+        for v in [1u16, 166, 167, 322, 1599, 1600, 7462] {
+            rep.sample(sample_json("HandRank::from", &v.to_string(), &format!("{:?}", HandRank::from(v))));
+        }
+    }
+    // (2) every class variant labels a non-empty contiguous range
+    {
+        let t0 = Instant::now();
+        let mut acc = Acc::new(1);
+        let n = HandRankClass::iter().count();
+        for i in 0..n {
+            acc.cases += 1;
+            acc.calls += 65536;
+            acc.nontrivial += 1;
+            if let Some(v) = confirm(judge, Case::new("class-range", &[i as u64])) {
+                acc.violate(v);
+            }
+        }
+        rep.hist_add("class_variants", n as u64);
+        rep.hist_add("category_variants", HandRankName::iter().count() as u64);
+        // the generated vocabulary must name 309 distinct classes
+        let distinct: std::collections::BTreeSet<&String> = (1..=7462).map(|v| &e.class_text[v]).collect();
+        rep.guard("the generated vocabulary names 309 distinct classes", distinct.len() == 309, format!("{}", distinct.len()));
+        rep.add_space("every HandRankClass variant x all 65,536 values", &acc, t0, "each non-Invalid variant labels a non-empty contiguous value range; Invalid labels exactly the rest");
+    }
+    // (3) hands
+    let ident5: Vec<Vec<usize>> = vec![(0..5).collect(), (0..5).rev().collect()];
+    hands_space(ctx, rep, 5, &ident5);
+    if ctx.tier.thorough() {
+        hands_space(ctx, rep, 6, &[(0..6).collect(), (0..6).rev().collect()]);
+        hands_space(ctx, rep, 7, &[(0..7).collect()]);
+    }
+    rep.rule = "distinct values, distinct class variants, distinct (hand, order) pairs; non-trivial = values 1..=7462 (each must name one specific class), every variant, every hand".into();
+    rep.bound = if ctx.tier.thorough() { "values and variants complete; five-, six- (2 orders) and seven-card hands (canonical order) complete".into() } else { "values and variants complete; all five-card hands in two orders".into() };
+    rep.assume("expected Debug text is generated from the crate's published vocabulary (Four{Plural}, {Plural}Over{Plural}, {Singular}HighFlush, {Plural}And{Plural}, PairOf{Plural}, {Singular}High, RoyalFlush, ...)");
 }
